@@ -339,6 +339,13 @@ void mmd_export_image_html(DString * out, const char * source, token * text, lin
 		is_figure = false;
 	}
 
+	if (is_figure &&
+			((out->currentStringLength < 3) || (strncmp(&(out->str[out->currentStringLength - 3]), "<p>", 3) != 0))) {
+		// An image alone in a table cell, a definition term, ... is not wrapped in
+		// a paragraph of its own: there is no <p> to trade for a <figure>
+		is_figure = false;
+	}
+
 	if (is_figure) {
 		// Remove wrapping <p> markers
 		d_string_erase(out, out->currentStringLength - 3, 3);
